@@ -117,6 +117,27 @@ def decimalValue (b : Bytes) : Dec :=
     | [] => 0
   ⟨neg, bytesVal (ip ++ fp), ex - fp.length⟩
 
+/-! ### integer literals -/
+
+/-- A canonical decimal natural number: non-empty, digits only, no leading zero unless it is "0". -/
+def canonicalDecimal (b : Bytes) : Bool :=
+  !b.isEmpty && b.all isDigit && (b.head? != some 48 || b == [48])
+
+/-- The JSON integer literals `-? (0 | [1-9][0-9]*)` ("-0" included). -/
+def isIntLit (b : Bytes) : Bool :=
+  match b with
+  | 45 :: t => canonicalDecimal t
+  | _ => canonicalDecimal b
+
+/-- The integer an integer literal denotes. -/
+def intVal (b : Bytes) : Int :=
+  match b with
+  | 45 :: t => -(bytesVal t : Int)
+  | _ => (bytesVal b : Int)
+
+/-- The literal has a fraction or an exponent. -/
+def hasFracOrExp (b : Bytes) : Bool := b.any (fun c => c == 46 || c == 101 || c == 69)
+
 /-- Two decimals denote the same real number. -/
 def Dec.same (a b : Dec) : Prop :=
   let m := min a.exp10 b.exp10
